@@ -374,10 +374,11 @@ func (d *decoder) parseFileIdMsg() error {
 		return fmt.Errorf("error parsing record header: %w", err)
 	}
 
-	if !((b & mesgHeaderMask) == mesgHeaderMask) {
+	compressed := (b & compressedHeaderMask) == compressedHeaderMask
+	if !compressed && (b&mesgDefinitionMask) != mesgHeaderMask {
 		return fmt.Errorf("expected record header byte for data message, got %#x - %8b", b, b)
 	}
-	msg, err := d.parseDataMessage(b, false)
+	msg, err := d.parseDataMessage(b, compressed)
 	if err != nil {
 		return fmt.Errorf("error reading data message: %w", err)
 	}
